@@ -731,7 +731,7 @@ func init() {
 			{Name: "C10_alias_shape", Pkg: "zzh", Func: "H_C10_alias_shape", Reach: []string{"done"},
 				What: "dims / nested data / shape arguments and Shape() results overwritten with fresh solver values after the call: tensors and later gradients unaffected",
 				Items: func(string) []Item {
-					return sItems("fn", []string{"Full", "TensorOf", "Reshape", "Broadcast", "Shape"}, rankItems(2, 2, 2, nil))
+					return sItems("fn", []string{"Full", "TensorOf", "Reshape", "Broadcast", "Shape"}, rankItems(0, 2, 3, nil))
 				}},
 			{Name: "C10_alias_index", Pkg: "zzh", Func: "H_C10_alias_index", Reach: []string{"done"},
 				What: "index ranges (Slice, Patch) and the tensor list (Concat) overwritten with solver-chosen values between the forward call and BackPropagate: gradients follow the arguments given at call time",
